@@ -9,7 +9,13 @@
 (* over a finite alphabet of arguments (a pool of features: columns of two *)
 (* tables and of a reference, literals of each kind, aggregates, an alias, *)
 (* arithmetic / boolean expressions, foreign columns, ill-kinded           *)
-(* expressions).  Requirement: a call on statement s with candidate result *)
+(* expressions, literals of different kinds whose python values are equal  *)
+(* - 1 / 1.0 / True: a literal has the kind of its own python type).  The  *)
+(* outcome of a call is a function of the statement and the call alone     *)
+(* (Outcome reads nothing else): the replay executes all transitions of a  *)
+(* chunk in one interpreter, spelling literals as plain python constants,  *)
+(* so an outcome that depends on the calls made before shows up as a       *)
+(* difference.  Requirement: a call on statement s with candidate result *)
 (* n answers ok and moves to n  iff  WellFormed(n)  (module DslAst: the    *)
 (* documented rules); otherwise it raises the grammar error and leaves s   *)
 (* unchanged.  SchemaOf(s) lists the output names and kinds of s in order. *)
